@@ -1021,10 +1021,25 @@ func (f *Frame) evalStub(con *Contract, vals [][]*Term, old MemState, newMem *Me
 		}
 		sub.set(p, vals[i])
 	}
-	sub.run(BState{reach: f.tb().True(), mem: old})
 	if con.Flags["assigns_all"] {
 		st.assignsAll = true
 	}
+	if con.Flags["noframe"] && f.stub == nil && newMem == nil {
+		// used at a call site: the callee's writes were not checked against an assigns clause.
+		// Without one, everything may have been written; with one, the clause is an assumption.
+		hasAssigns := false
+		for _, cl := range con.Clauses {
+			if cl.Kind == "assigns" {
+				hasAssigns = true
+			}
+		}
+		if !hasAssigns {
+			st.assignsAll = true
+		} else {
+			f.u.Trusted["assigns clause of "+con.Target+" is assumed (flag noframe: its frame is not verified)"] = true
+		}
+	}
+	sub.run(BState{reach: f.tb().True(), mem: old})
 	return st
 }
 
